@@ -153,25 +153,17 @@ func c18pool(c *Ctx, fn *ssa.Function) {
 		r.Fail("PATH", key+"/shape", c.Pos(fn.Pos()), sprintf("expected evictPodsFromSourceNodes, classifyNodes and two filterRealAbnormalNodes calls; found %v %v %d", ev != nil, classify != nil, len(filt)))
 		return
 	}
-	// len(x) == 0 comparisons grouped by what x derives from
+	// "class x is empty" as an assumption on every len(x) value (whatever is done with it: compared with 0 one by one,
+	// or summed up first)
 	lenZero := func(pred func(string) bool) an.Facts {
 		f := an.Facts{}
-		for _, b := range fn.Blocks {
-			for _, in := range b.Instrs {
-				bo, ok := in.(*ssa.BinOp)
-				if !ok || bo.Op.String() != "==" {
-					continue
-				}
-				call, ok := bo.X.(*ssa.Call)
-				if !ok || !an.IsBuiltinCall(call, "len") {
-					continue
-				}
-				if cst, ok := bo.Y.(*ssa.Const); !ok || cst.Value == nil || cst.Value.ExactString() != "0" {
-					continue
-				}
-				if pred(an.Path(call.Call.Args[0])) {
-					f[bo] = an.True
-				}
+		for _, cl := range an.Calls(fn, false) {
+			call, ok := cl.(*ssa.Call)
+			if !ok || !an.IsBuiltinCall(call, "len") {
+				continue
+			}
+			if pred(an.Path(call.Call.Args[0])) {
+				f[call] = an.Zero
 			}
 		}
 		return f
@@ -191,16 +183,16 @@ func c18pool(c *Ctx, fn *ssa.Function) {
 	}
 	for _, e := range exits {
 		reach := an.Explore(fn, nil, e.facts, nil)
-		r.Check(len(e.facts) == e.want && !reach.Reached(ev), "PATH", key+"/early-exit/"+e.name, c.InstrPos(ev), "nothing is evicted when "+e.name,
+		r.Check(len(e.facts) >= e.want && !reach.Reached(ev), "PATH", key+"/early-exit/"+e.name, c.InstrPos(ev), "nothing is evicted when "+e.name,
 			sprintf("the balance call is reachable although %s (conditions recognised: %d of %d)", e.name, len(e.facts), e.want))
 	}
 	// allLowNodes comparisons
-	for _, x := range []struct{ name, op, other string }{{"too-few-underused", "<=", "NumberOfNodes"}, {"all-underused", "==", "builtin.len(φ"}} {
+	for _, x := range []struct{ name, op, other string }{{"too-few-underused", "<=", "NumberOfNodes"}, {"all-underused", "==", "builtin.len("}} {
 		f := an.Facts{}
 		for _, b := range fn.Blocks {
 			for _, in := range b.Instrs {
 				if bo, ok := in.(*ssa.BinOp); ok && bo.Op.String() == x.op && strings.Contains(an.Path(bo.X), "builtin.len(") && strings.Contains(an.Path(bo.X), " + ") {
-					if strings.Contains(an.Path(bo.Y), x.other) || x.name == "all-underused" {
+					if strings.Contains(an.Path(bo.Y), x.other) {
 						f[bo] = an.True
 					}
 				}
